@@ -217,6 +217,21 @@ TEMPLATES.append(
      [{"value": 3}, {"value": 3, "child": {"class": 1, "k": None}, "children": [{"class": 2}]}, {"child": {"class": 1}}, {"valid": 2, "value": 0}]))
 
 
+TEMPLATES.append(
+    # compositions whose members build the same value differently: the FIRST successful branch's construction is the result
+    ({"classes": {"Holder": {"k": "Obj", "name": "Holder", "base": None, "doc": None, "kw": {},
+                             "props": {"n": {"e": {"k": "AnyOf", "elements": [{"k": "Number", "kw": {}}, {"k": "Integer", "kw": {}}]}, "required": False, "source": None},
+                                       "m": {"e": {"k": "AnyOf", "elements": [{"k": "Integer", "kw": {}}, {"k": "Number", "kw": {}}]}, "required": False, "source": None}}}},
+      "order": ["Holder"], "root": {"k": "Array", "items": [
+          {"k": "AnyOf", "elements": [{"k": "Number", "kw": {}}, {"k": "Integer", "kw": {}}]},
+          {"k": "AnyOf", "elements": [{"k": "Number", "kw": {"minimum": 0}}, {"k": "Element", "kw": {}}]},
+          {"k": "Array", "items": {"k": "AnyOf", "elements": [{"k": "Number", "kw": {}}, {"k": "Integer", "kw": {}}]}, "kw": {}},
+          {"k": "Ref", "name": "Holder"},
+          {"k": "OneOf", "elements": [{"k": "Number", "kw": {}}, {"k": "String", "kw": {}}]},
+          {"k": "AllOf", "elements": [{"k": "Number", "kw": {}}, {"k": "Integer", "kw": {}}]}], "kw": {}}},
+     [[3, 0, [1, 2.5, 3], {"n": 4, "m": 4}, 7, 2], [3.5, -1, [], {}, "s", 2], [0, 0, [0], {"n": 0}, 0, 0]]))
+
+
 def run(tier, seed, replay=None):
     from statham.schema.parser import parse_element
     res = Result("C04", tier, seed)
